@@ -117,10 +117,43 @@ def run(tier):
         if "id" not in r:
             continue
         s = byid[r["id"]]
+        if "stage" in r:
+            # an auxiliary circuit of the scenario (free selectors 0 / 1) already fails the property
+            n_enc += 1
+            ck.case(case_key(s))
+            g.add("prover round trip fails (%s) for a compiled circuit (stage %s of the encoder scenario)"
+                  % (r["rt"], r["stage"]),
+                  {"site": "ProverKey::to_var_bytes", "class": "roundtrip-fails-unpredicted"},
+                  {"observed": r["rt"], "stage": r["stage"], "scenario": s})
+            continue
+        if "layout_unreadable" in r:
+            # the bytes are not laid out as Codec.tla says; what the property demands is the round trip
+            n_enc += 1
+            ck.case(case_key(s))
+            if r.get("rt", "ok") != "ok":
+                g.add("prover round trip fails (%s) and the encoding is not laid out as the Codec model says (%s)"
+                      % (r.get("rt"), r["layout_unreadable"]),
+                      {"site": "ProverKey::to_var_bytes", "class": "roundtrip-fails-unpredicted"},
+                      {"observed": r.get("rt"), "scenario": s})
+            else:
+                print("SPEC-DRIFT C16: encoder scenario %s: the prover encoding is not laid out as Codec.tla "
+                      "says (%s); the round trip holds" % (case_key(s), r["layout_unreadable"]))
+            continue
         if "error" in r:
             raise vlib.ToolError("encoder scenario %s could not be realised: %s" % (case_key(s), r["error"]))
         want = [{"full": r["n"], "short": r["n"] - 1, "zero": 0}[c] for c in [t[1] for t in s["toks"]][:11]]
         if r["lens"][:11] != want or r["lens"][11:] != [r["n"]] * 4:
+            # the length prefixes read from the encoding are not the polynomial lengths the
+            # scenario constructs: the encoder's fault if the round trip fails, otherwise a
+            # scenario that could not be realised (tool error)
+            if r["rt"] != "ok" or r.get("reenc") is not True:
+                n_enc += 1
+                ck.case(case_key(s))
+                g.add("prover round trip fails (%s); the length prefixes of the encoding read %s where the "
+                      "circuit's selector polynomials have lengths %s" % (r["rt"], r["lens"][:11], want),
+                      {"site": "ProverKey::to_var_bytes", "class": "roundtrip-fails-unpredicted"},
+                      {"observed": r["rt"], "lens": r["lens"], "wanted": want, "scenario": s})
+                continue
             raise vlib.ToolError("encoder scenario %s realised with lengths %s" % (case_key(s), r["lens"]))
         n_enc += 1
         ck.case(case_key(s))
